@@ -11,7 +11,10 @@ Validated here on the REAL code (this is the failing-input search, it does not n
     scannermain.passthrough_gir does, and Transformer.parse_from_gir + GIRWriter when the
     includes can be satisfied) for freshly scanned generated namespaces, for every *.gir in
     the repository and for the files produced by a write;
-  * an AST-equality walk between the model that was written and the model read back.
+  * an AST-equality walk between the model that was written and the model read back;
+  * pairs of namespaces, one including the other and naming its types in every position (PairGen: the including
+    namespace's name a leading part of the included one's, the reverse, unrelated), judged the same way and also as
+    a text the writer under test has not produced (judge_pair).
 Tie of the Lean fragment model: generated Ty / parameter / callable values (functions, methods,
 constructors, virtual methods, callbacks, signals) and member lists of records / unions (typed
 fields with array lengths, fields holding a callback, anonymous struct / union members) are written
@@ -1707,6 +1710,319 @@ class NsGen(object):
         return cfg
 
 
+# ------------------------------------------------------------------ two namespaces: one includes the other
+# Names of real library families: the including namespace's name is a leading part of the included one's (Gdk /
+# GdkPixbuf, Gst / GstBase, Gtk / GtkSource), the other way round, or unrelated.
+PAIR_NAMES = [
+    # (namespace, symbol prefix, included namespace, its symbol prefix, relation)
+    ('Foo', 'foo', 'FooBase', 'foo_base', 'ns-is-prefix-of-included'),
+    ('Gdk', 'gdk', 'GdkPixbuf', 'gdk_pixbuf', 'ns-is-prefix-of-included'),
+    ('Gst', 'gst', 'GstBase', 'gst_base', 'ns-is-prefix-of-included'),
+    ('Bar', 'bar', 'Barcode', 'barcode', 'ns-is-prefix-of-included'),
+    ('Gx', 'gx', 'GxExtra', 'gx_extra', 'ns-is-prefix-of-included'),
+    ('FooBase', 'foo_base', 'Foo', 'foo', 'included-is-prefix-of-ns'),
+    ('GdkPixbuf', 'gdk_pixbuf', 'Gdk', 'gdk', 'included-is-prefix-of-ns'),
+    ('Foo', 'foo', 'Pix', 'pix', 'unrelated'),
+    ('Bar', 'bar', 'Foo', 'foo', 'unrelated'),
+    ('Gdk', 'gdk', 'Gd', 'gd', 'included-is-prefix-of-ns'),
+]
+
+
+def placeholder_name(ns, inc):
+    """For `inc` = `ns` + suffix: a name of the same length which does NOT begin with `ns` and sorts the same way
+    relative to 'ns.', 'GLib', 'GObject' (last character of the common part replaced by its successor)."""
+    if not inc.startswith(ns) or inc == ns or len(ns) < 2:
+        return None
+    return ns[:-1] + chr(ord(ns[-1]) + 1) + inc[len(ns):]
+
+
+class PairGen(object):
+    """A scanpipe configuration of an included namespace (record, enumeration, flags, callback, class with class
+    structure, interface, alias) and one of a namespace that refers to those types in every position the writer
+    names a type: <type name> of parameters / return values / fields / properties / signal arguments / element
+    types / alias targets, parent=, <implements>, <prerequisite>."""
+
+    def __init__(self, rng, cnt, incdir, names=None):
+        self.rng = rng
+        self.cnt = cnt
+        self.inc = incdir
+        self.names = names or rng.choice(PAIR_NAMES)
+
+    def coin(self, p=0.5):
+        return self.rng.random() < p
+
+    def build_included(self):
+        rng = self.rng
+        _n, _s, M, ms, _rel = self.names
+        line = [3]
+
+        def nl():
+            line[0] += rng.randint(1, 6)
+            return line[0]
+        w = {k: rng.choice(v) for k, v in (('rec', ['Frame', 'Region', 'Span']), ('enum', ['Format', 'Order']),
+                                           ('flags', ['Caps', 'Hints']), ('cb', ['Notify', 'Visit']),
+                                           ('cls', ['Loader', 'Engine', 'Sink']), ('iface', ['Source', 'Codec']),
+                                           ('alias', ['Stamp', 'Token']))}
+        self.w = w
+        lo = {k: v.lower() for k, v in w.items()}
+        decls, dump = [], []
+        decls.append({'d': 'typedef', 'name': M + w['rec'], 'type': {'k': 'struct', 'n': '_' + M + w['rec']}, 'line': nl()})
+        decls.append({'d': 'struct', 'name': '_' + M + w['rec'], 'line': nl(),
+                      'fields': [{'name': 'width', 'type': T('int')}, {'name': 'next', 'type': P(T(M + w['rec']))}]})
+        up = ms.upper()
+        decls.append({'d': 'typedef', 'name': M + w['enum'], 'line': nl(),
+                      'type': {'k': 'enum', 'n': None, 'bitfield': False,
+                               'members': [{'name': '%s_%s_%s' % (up, lo['enum'].upper(), x), 'value': i}
+                                           for i, x in enumerate(['NONE', 'FIRST', 'LAST'][:rng.randint(1, 3)])]}})
+        decls.append({'d': 'typedef', 'name': M + w['flags'], 'line': nl(),
+                      'type': {'k': 'enum', 'n': None, 'bitfield': True,
+                               'members': [{'name': '%s_%s_%s' % (up, lo['flags'].upper(), x), 'value': 1 << i}
+                                           for i, x in enumerate(['A', 'B'])]}})
+        decls.append({'d': 'typedef', 'name': M + w['cb'], 'line': nl(),
+                      'type': P({'k': 'func', 'ret': T('void'),
+                                 'params': [{'name': 'item', 'type': P(T(M + w['rec']))},
+                                            {'name': 'user_data', 'type': T('gpointer')}]})})
+        decls.append({'d': 'typedef', 'name': M + w['alias'], 'type': T('guint32'), 'line': nl()})
+        c = M + w['cls']
+        decls.append({'d': 'typedef', 'name': c, 'type': {'k': 'struct', 'n': '_' + c}, 'line': nl()})
+        decls.append({'d': 'typedef', 'name': c + 'Class', 'type': {'k': 'struct', 'n': '_' + c + 'Class'}, 'line': nl()})
+        decls.append({'d': 'struct', 'name': '_' + c, 'line': nl(),
+                      'fields': [{'name': 'parent_instance', 'type': T('GObject')}]})
+        decls.append({'d': 'struct', 'name': '_' + c + 'Class', 'line': nl(),
+                      'fields': [{'name': 'parent_class', 'type': T('GObjectClass')},
+                                 {'name': 'load', 'line': nl(),
+                                  'type': P({'k': 'func', 'ret': T('int'),
+                                             'params': [{'name': 'self', 'type': P(T(c))},
+                                                        {'name': 'item', 'type': P(T(M + w['rec']))}]})}]})
+        decls.append({'d': 'function', 'name': '%s_%s_get_type' % (ms, lo['cls']), 'ret': T('GType'), 'params': [],
+                      'line': nl()})
+        dump.append('<class name="%s" get-type="%s_%s_get_type" parents="GObject"/>' % (c, ms, lo['cls']))
+        i = M + w['iface']
+        decls.append({'d': 'typedef', 'name': i, 'type': {'k': 'struct', 'n': '_' + i}, 'line': nl()})
+        decls.append({'d': 'typedef', 'name': i + 'Interface', 'type': {'k': 'struct', 'n': '_' + i + 'Interface'},
+                      'line': nl()})
+        decls.append({'d': 'struct', 'name': '_' + i + 'Interface', 'line': nl(),
+                      'fields': [{'name': 'g_iface', 'type': T('GTypeInterface')}]})
+        decls.append({'d': 'function', 'name': '%s_%s_get_type' % (ms, lo['iface']), 'ret': T('GType'), 'params': [],
+                      'line': nl()})
+        dump.append('<interface name="%s" get-type="%s_%s_get_type"><prerequisite name="GObject"/></interface>'
+                    % (i, ms, lo['iface']))
+        return {'namespace': M, 'version': rng.choice(['2.0', '1.0']), 'id_prefixes': [M], 'sym_prefixes': [ms],
+                'decls': decls, 'comments': [], 'dump': '<?xml version="1.0"?><dump>%s</dump>' % ''.join(dump),
+                'sources_top_dirs': ['/src'], 'default_file': '/src/%s/%s.h' % (ms, ms)}
+
+    def build(self):
+        """-> (cfg of the included namespace, cfg of the namespace that uses it); `includes` / `include_paths` are
+        filled in by scan_pair"""
+        rng = self.rng
+        N, ns, M, ms, rel = self.names
+        inc_cfg = self.build_included()
+        w = self.w
+        g = NsGen(rng, self.cnt, self.inc)
+        g.id, g.sym = N, ns
+        for x in ('viewer', 'feed', 'slot', 'walker', 'ticket'):
+            g.used.add(x)
+        cfg = g.build()
+        # a (random) second identifier prefix 'Fx' stays; the symbol prefix is the pair's
+        rec, enum, flags, cb = M + w['rec'], M + w['enum'], M + w['flags'], M + w['cb']
+        cls, iface, alias = M + w['cls'], M + w['iface'], M + w['alias']
+        used = []
+
+        def use(label):
+            used.append(label)
+            self.cnt.hit('pair:use:' + label)
+        fhdr = '/src/%s/%s.h' % (ns, ns)
+        # 1. a function taking and returning types of the included namespace (always)
+        f1 = '%s_peek_%s' % (ns, rng.choice(['first', 'best', 'any']))
+        params = [{'name': 'item', 'type': P(T(rec))}]
+        blk = ['/**', ' * %s:' % f1, ' * @item: an item']
+        if self.coin(0.7):
+            params.append({'name': 'how', 'type': T(rng.choice([enum, flags]))})
+            blk.append(' * @how: how')
+            use('param:enum')
+        if self.coin(0.5):
+            params.append({'name': 'stamp', 'type': T(alias)})
+            use('param:alias')
+        if self.coin(0.6):
+            params += [{'name': 'fn', 'type': T(cb)}, {'name': 'user_data', 'type': T('gpointer')}]
+            blk.append(' * @fn: (scope call): visitor')
+            use('param:callback')
+        if self.coin(0.5):
+            params.append({'name': 'items', 'type': P(T('GList'))})
+            blk.append(' * @items: (element-type %s.%s) (transfer none): more' % (M, w['rec']))
+            use('param:list-element')
+        if self.coin(0.4):
+            params += [{'name': 'arr', 'type': P(P(T(cls)))}, {'name': 'n_arr', 'type': T('int')}]
+            blk.append(' * @arr: (array length=n_arr) (transfer none): objects')
+            use('param:array-element')
+        blk += [' *', ' * Returns: (transfer none): the same', ' */']
+        g.decls.append({'d': 'function', 'name': f1, 'ret': P(T(rec)), 'params': params, 'line': g.nl(), 'file': fhdr})
+        use('param+return:record')
+        if self.coin(0.8):
+            g.add_comment('\n'.join(blk))
+        # 2. a record with fields of foreign types
+        if self.coin(0.7):
+            c = N + 'Slot'
+            g.decls.append({'d': 'typedef', 'name': c, 'type': {'k': 'struct', 'n': '_' + c}, 'line': g.nl()})
+            fl = [{'name': 'depth', 'type': T('int')}, {'name': 'item', 'type': P(T(rec))}]
+            if self.coin():
+                fl.append({'name': 'inline_item', 'type': T(rec)})
+            if self.coin():
+                fl.append({'name': 'how', 'type': T(enum)})
+            if self.coin():
+                fl.append({'name': 'obj', 'type': P(T(cls))})
+            if self.coin():
+                fl.append({'name': 'fn', 'type': T(cb)})
+            g.decls.append({'d': 'struct', 'name': '_' + c, 'fields': fl, 'line': g.nl()})
+            use('field')
+        # 3. a class derived from a foreign class, implementing a foreign interface
+        if self.coin(0.8):
+            c = N + 'Viewer'
+            sp = ns + '_viewer'
+            g.decls.append({'d': 'typedef', 'name': c, 'type': {'k': 'struct', 'n': '_' + c}, 'line': g.nl()})
+            g.decls.append({'d': 'typedef', 'name': c + 'Class', 'type': {'k': 'struct', 'n': '_' + c + 'Class'},
+                            'line': g.nl()})
+            g.decls.append({'d': 'struct', 'name': '_' + c, 'line': g.nl(),
+                            'fields': [{'name': 'parent_instance', 'type': T(cls)}]})
+            cf = [{'name': 'parent_class', 'type': T(cls + 'Class')}]
+            if self.coin():
+                cf.append({'name': 'show', 'line': g.nl(),
+                           'type': P({'k': 'func', 'ret': P(T(rec)),
+                                      'params': [{'name': 'self', 'type': P(T(c))}, {'name': 'src', 'type': P(T(iface))}]})})
+                use('vfunc')
+            g.decls.append({'d': 'struct', 'name': '_' + c + 'Class', 'fields': cf, 'line': g.nl()})
+            g.decls.append({'d': 'function', 'name': sp + '_get_type', 'ret': T('GType'), 'params': [], 'line': g.nl()})
+            inner = ''
+            if self.coin(0.7):
+                inner += '<implements name="%s"/>' % iface
+                use('implements')
+            if g.ifaces and self.coin(0.5):
+                inner += '<implements name="%s"/>' % (N + g.ifaces[0])
+                use('implements:own-too')
+            if self.coin(0.6):
+                inner += '<property name="engine" type="%s" flags="3"/>' % cls
+                use('property')
+            if self.coin(0.6):
+                inner += '<signal name="loaded" return="void" when="last"><param type="%s"/></signal>' % cls
+                use('signal-param')
+            g.dump.append('<class name="%s" get-type="%s_get_type" parents="%s,GObject">%s</class>' % (c, sp, cls, inner))
+            use('parent')
+            if self.coin(0.7):
+                g.decls.append({'d': 'function', 'name': sp + '_new', 'ret': P(T(c)), 'line': g.nl(), 'file': fhdr,
+                                'params': [{'name': 'from', 'type': P(T(cls))}]})
+                use('constructor-param')
+            if self.coin(0.7):
+                g.decls.append({'d': 'function', 'name': sp + '_set_source', 'ret': T('void'), 'line': g.nl(), 'file': fhdr,
+                                'params': [{'name': 'self', 'type': P(T(c))}, {'name': 'src', 'type': P(T(iface))}]})
+                use('method-param:interface')
+        # 4. an interface whose prerequisite is a foreign class
+        if self.coin(0.6):
+            c = N + 'Feed'
+            sp = ns + '_feed'
+            g.decls.append({'d': 'typedef', 'name': c, 'type': {'k': 'struct', 'n': '_' + c}, 'line': g.nl()})
+            g.decls.append({'d': 'typedef', 'name': c + 'Interface', 'type': {'k': 'struct', 'n': '_' + c + 'Interface'},
+                            'line': g.nl()})
+            g.decls.append({'d': 'struct', 'name': '_' + c + 'Interface', 'line': g.nl(),
+                            'fields': [{'name': 'g_iface', 'type': T('GTypeInterface')}]})
+            g.decls.append({'d': 'function', 'name': sp + '_get_type', 'ret': T('GType'), 'params': [], 'line': g.nl()})
+            g.dump.append('<interface name="%s" get-type="%s_get_type"><prerequisite name="%s"/></interface>'
+                          % (c, sp, rng.choice([cls, iface])))
+            use('prerequisite')
+        # 5. a callback and an alias over foreign types
+        if self.coin(0.5):
+            g.decls.append({'d': 'typedef', 'name': N + 'Walker', 'line': g.nl(),
+                            'type': P({'k': 'func', 'ret': T(enum),
+                                       'params': [{'name': 'item', 'type': P(T(rec))},
+                                                  {'name': 'user_data', 'type': T('gpointer')}]})})
+            use('callback')
+        if self.coin(0.5):
+            g.decls.append({'d': 'typedef', 'name': N + 'Ticket', 'type': rng.choice([T(alias), P(T(rec)), T(enum)]),
+                            'line': g.nl()})
+            use('alias-target')
+        cfg['decls'] = g.decls
+        cfg['comments'] = g.comments
+        cfg['dump'] = '<?xml version="1.0"?><dump>%s</dump>' % ''.join(g.dump)
+        cfg['namespace'] = N
+        cfg['id_prefixes'] = [N] + cfg['id_prefixes'][1:]
+        cfg['sym_prefixes'] = [ns]
+        self.used = used
+        return inc_cfg, {k: v for k, v in cfg.items() if k not in ('includes', 'include_paths')}
+
+
+def rename_cfg(cfg, old, new):
+    """the same configuration with every occurrence of the identifier part `old` spelled `new`"""
+    return json.loads(json.dumps(cfg).replace(old, new))
+
+
+def scan_pair(inc_cfg, cfg, pairdir, inc):
+    """Scans the included namespace, stores its GIR in `pairdir` under the name an <include> looks for, then scans
+    the namespace that uses it.  -> (out_inc, out, why)"""
+    os.makedirs(pairdir, exist_ok=True)
+    ic = dict(inc_cfg)
+    ic['includes'] = [os.path.join(inc, 'GObject-2.0.gir')]
+    ic['include_paths'] = [inc]
+    out_inc, why = scan_generated(ic)
+    if out_inc is None or out_inc.get('gir') is None:
+        return None, None, 'included namespace: %s' % why
+    ipath = os.path.join(pairdir, '%s-%s.gir' % (ic['namespace'], ic['version']))
+    with open(ipath, 'w', encoding='utf-8') as f:
+        f.write(out_inc['gir'])
+    c = dict(cfg)
+    c['includes'] = [os.path.join(inc, 'GObject-2.0.gir'), ipath]
+    c['include_paths'] = [pairdir, inc]
+    out, why = scan_generated(c)
+    return out_inc, out, why
+
+
+def judge_pair(judge, inc_cfg, cfg, pairdir, inc, origin, replay, count=True):
+    """The property's oracle on a pair of freshly scanned namespaces:
+      * the included namespace's GIR and the including namespace's GIR: w1 == w2 == w3, Transformer path, AST walk
+        written-vs-read (Judge.judge with the scanned model);
+      * when the included namespace's name begins with the including one's: the GIR text of the SAME sources scanned
+        with the included namespace spelled differently (same length, same sort order, not beginning with the
+        including namespace's name), with the real spelling put back textually — a file as it is found in a source
+        tree, which the writer under test has not produced — must be byte-identical after read -> write.
+    -> ([status...], failures, [(label, scan result or None, GIR text)...])"""
+    sts, fails, outs = [], [], []
+    out_inc, out, why = scan_pair(inc_cfg, cfg, pairdir, inc)
+    if out is None or out.get('gir') is None:
+        if why and why.startswith('WRITER '):
+            fails.append({'key': origin + ':writer-exception',
+                          'what': 'GIRWriter raised while writing a freshly scanned namespace (%s): %s' % (origin, why[7:]),
+                          'replay': dict(replay, failure='writer exception')})
+            return ['writer-exception'], fails, outs
+        return ['outside(rejected-by-scanner)'], fails, outs
+    roots = cfg.get('sources_top_dirs', ['/src'])
+    incdirs = [pairdir, inc]
+    ifname = '%s-%s.gir' % (inc_cfg['namespace'], inc_cfg['version'])
+    fname = '%s-%s.gir' % (cfg['namespace'], cfg['version'])
+    st, f, _i = judge.judge(out_inc['gir'].encode('utf-8'), ifname, origin + ':included', dict(replay, which='included'),
+                            ns_written=out_inc['namespace'], roots=inc_cfg.get('sources_top_dirs', ['/src']),
+                            incdirs=[inc], count=count)
+    sts.append('included:' + st)
+    fails += f
+    outs.append(('included', out_inc, out_inc['gir']))
+    st, f, _i = judge.judge(out['gir'].encode('utf-8'), fname, origin, dict(replay, which='including'),
+                            ns_written=out['namespace'], roots=roots, incdirs=incdirs, count=count)
+    sts.append('including:' + st)
+    fails += f
+    outs.append(('including', out, out['gir']))
+    N, M = cfg['namespace'], inc_cfg['namespace']
+    ph = placeholder_name(N, M)
+    if ph is not None and ph not in json.dumps([inc_cfg, cfg]):
+        _oi, o2, _w = scan_pair(rename_cfg(inc_cfg, M, ph), rename_cfg(cfg, M, ph), os.path.join(pairdir, 'renamed'), inc)
+        if o2 is not None and o2.get('gir') is not None:
+            text = o2['gir'].replace(ph, M)
+            st, f, _i = judge.judge(text.encode('utf-8'), fname, origin + ':as-found-in-a-tree',
+                                    {'kind': 'gir-with-includes', 'text': text, 'filename': fname,
+                                     'includes': {ifname: out_inc['gir']}, 'derived_from': replay},
+                                    must_be_identical=True, incdirs=incdirs, count=count)
+            sts.append('as-found-in-a-tree:' + st)
+            fails += f
+            outs.append(('as-found-in-a-tree', None, text))
+    return sts, fails, outs
+
+
 # ------------------------------------------------------------------ judging one GIR text
 class Judge(object):
     """Evaluates the property's oracle on one GIR text.  Returns the list of failures (each a dict
@@ -2748,6 +3064,15 @@ def _run(ctx, cnt, rng, fast):
                                           must_be_identical=e.get('must_be_identical', False))
             file_failures(fails)
             cnt.case(['gir', e['text']])
+        elif kind == 'namespace-pair':
+            sts, fails, outs = judge_pair(judge, e['inc_cfg'], e['cfg'], os.path.join(fast, 'pair', 'corpus%d' % evaluations),
+                                          inc, 'corpus:' + e['name'],
+                                          {'kind': 'namespace-pair', 'inc_cfg': e['inc_cfg'], 'cfg': e['cfg']})
+            evaluations += len(outs)
+            file_failures(fails)
+            for st in sts:
+                cnt.hit('corpus:pair:' + st)
+            cnt.case(['pair', e['cfg'], e['inc_cfg']], nontrivial=True)
         elif kind == 'callable':
             frag_corpus.append(e['callable'])
         elif kind == 'members':
@@ -2811,6 +3136,32 @@ def _run(ctx, cnt, rng, fast):
         samples.append({'kind': 'namespace', 'cfg': {k: (v if k != 'decls' else v[:3]) for k, v in last_cfg.items()
                                                     if k in ('namespace', 'version', 'decls', 'dump')}})
     ctx.log('%d generated namespaces judged' % done)
+
+    # ---------------- pairs of namespaces: one includes the other and names its types (every name relation, every run)
+    n_pairs = ctx.n(2 * len(PAIR_NAMES), 40 * len(PAIR_NAMES))
+    pair_deadline = time.time() + ctx.n(20, 120)
+    last_pair = None
+    for i in range(n_pairs):
+        if i >= len(PAIR_NAMES) and time.time() > pair_deadline:
+            cnt.hit('pair:stopped-at-time-budget')
+            break
+        pg = PairGen(rng, cnt, inc, PAIR_NAMES[i % len(PAIR_NAMES)])
+        inc_cfg, cfg = pg.build()
+        rep = {'kind': 'namespace-pair', 'inc_cfg': inc_cfg, 'cfg': cfg}
+        sts, fails, outs = judge_pair(judge, inc_cfg, cfg, os.path.join(fast, 'pair', str(i)), inc, 'pair#%d' % i, rep)
+        for st in sts:
+            cnt.hit('pair:%s:%s' % (pg.names[4], st))
+        for label, out, text in outs:
+            evaluations += 1
+            vocab_pairs(text.encode('utf-8'), seen_vocab)
+            cnt.case(['ns', text], nontrivial=True)
+            if out is not None:
+                queue_wf(out['namespace'], cfg.get('sources_top_dirs', ['/src']), 'pair#%d:%s' % (i, label), set())
+        file_failures(fails)
+        last_pair = {'kind': 'namespace-pair', 'names': list(pg.names), 'uses': pg.used}
+    if last_pair is not None:
+        samples.append(last_pair)
+    ctx.log('%d namespace pairs judged' % n_pairs)
 
     # ---------------- histories: several documents read with ONE GIRParser instance
     try:
@@ -3099,6 +3450,12 @@ def _run(ctx, cnt, rng, fast):
                 'attributes toggled at random, doc text with tabs, & < > quotes, leading/trailing spaces, non-ASCII, '
                 'several paragraphs); each judged by w1==w2==w3 through GIRParser+GIRWriter (= scannermain.passthrough_gir) '
                 'and Transformer.parse_from_gir+GIRWriter, plus an AST walk written-vs-read and read-vs-reread. '
+                'namespace pairs: an included namespace (record, enum, flags, callback, alias, class, interface) scanned '
+                'and stored, then a generated namespace including it whose functions / fields / vfuncs / properties / '
+                'signals / element types / alias targets / parent / implements / prerequisite name those types; every '
+                'relation of the two names in every run (Gdk+GdkPixbuf, GdkPixbuf+Gdk, unrelated); both GIRs judged as '
+                'above, and the GIR of the same sources scanned under another spelling of the included namespace with '
+                'the real spelling put back textually must be byte-identical after read->write. '
                 'histories: sequences of 2-4 parse()/parse_tree() calls on ONE GIRParser (also types_only) over generated and '
                 'shipped GIRs with the header (include / package / c:include / doc:format / c:identifier-prefixes) kept, '
                 'stripped or replaced, now and then a document every reader rejects: each write must be byte-identical '
@@ -3168,6 +3525,21 @@ def replay(ctx, rep):
             st, fails, info = judge.judge(w1, os.path.basename(path).replace('-expected', ''), 'replay', {},
                                           must_be_identical=w1.startswith(PROLOGUE.encode()),
                                           incdirs=[os.path.dirname(path), os.path.join(REPO, 'gir')])
+        elif kind == 'namespace-pair':
+            sts, fails, _outs = judge_pair(judge, r['inc_cfg'], r['cfg'], os.path.join(fast, 'pair', 'replay'), inc,
+                                           'replay', {}, count=False)
+            st = ','.join(sts)
+            if sts and sts[0].startswith('outside'):
+                print('the scanner rejects this input')
+                return 2
+        elif kind == 'gir-with-includes':
+            d = os.path.join(fast, 'pair', 'replay')
+            os.makedirs(d, exist_ok=True)
+            for fn, text in r.get('includes', {}).items():
+                with open(os.path.join(d, os.path.basename(fn)), 'w', encoding='utf-8') as f:
+                    f.write(text)
+            st, fails, info = judge.judge(r['text'].encode('utf-8'), os.path.basename(r.get('filename', 'Replay-1.0.gir')),
+                                          'replay', {}, must_be_identical=True, incdirs=[d, inc])
         elif kind == 'gir':
             st, fails, info = judge.judge(r['text'].encode('utf-8'), 'Replay-1.0.gir', 'replay', {}, must_be_identical=True)
         elif kind == 'callable':
